@@ -1,4 +1,5 @@
 import Verif.Lemmas.C05Sound
+import Verif.Model.Lexer
 import Verif.Lemmas.C05Stages
 import Verif.Lemmas.C05Expr
 import Verif.Gen.Tokens
@@ -17,31 +18,13 @@ back) follow in the second half of the file. -/
 namespace C05
 open Syntax
 
-/-- the LogQL grammar's fixed spellings, written from the language reference -/
-def expected : List (String × K) := [
-  ("!=", .neq), ("!~", .nre), ("%", .mod), ("(", .lparen), (")", .rparen), ("*", .mul), ("+", .add), (",", .comma), ("-", .sub),
-  (".", .dot), ("/", .div), ("<", .lt), ("<=", .lte), ("=", .eq), ("==", .cmpEq), ("=~", .re), (">", .gt), (">=", .gte),
-  ("[", .lbracket), ("]", .rbracket), ("^", .pow), ("absent_over_time", .absentOverTime), ("and", .and), ("avg", .avg),
-  ("avg_over_time", .avgOverTime), ("bool", .bool), ("bottomk", .bottomk), ("by", .by_), ("bytes", .bytesConv),
-  ("bytes_over_time", .bytesOverTime), ("bytes_rate", .bytesRate), ("count", .count), ("count_over_time", .countOverTime),
-  ("decolorize", .decolorize), ("distinct", .distinct), ("drop", .drop), ("duration", .durationConv),
-  ("duration_seconds", .durationSecondsConv), ("first_over_time", .firstOverTime), ("group_left", .groupLeft),
-  ("group_right", .groupRight), ("ignoring", .ignoring), ("ip", .ip), ("json", .json), ("keep", .keep),
-  ("label_format", .labelFormat), ("label_replace", .labelReplace), ("last_over_time", .lastOverTime),
-  ("line_format", .lineFormat), ("logfmt", .logfmt), ("max", .max), ("max_over_time", .maxOverTime), ("min", .min),
-  ("min_over_time", .minOverTime), ("offset", .offset), ("on", .on), ("or", .or), ("pattern", .pattern),
-  ("quantile_over_time", .quantileOverTime), ("rate", .rate), ("rate_counter", .rateCounter), ("regexp", .regexp),
-  ("sort", .sort), ("sort_desc", .sortDesc), ("stddev", .stddev), ("stddev_over_time", .stddevOverTime), ("stdvar", .stdvar),
-  ("stdvar_over_time", .stdvarOverTime), ("sum", .sum), ("sum_over_time", .sumOverTime), ("topk", .topk), ("unless", .unless),
-  ("unpack", .unpack), ("unwrap", .unwrap), ("vector", .vector), ("without", .without), ("{", .lbrace), ("|", .pipe),
-  ("|=", .pipeExact), ("|~", .pipeMatch), ("}", .rbrace)]
+/-- the LogQL grammar's fixed spellings: the table of the lexer model (`Lexer.kwTable`, written by hand
+from the language reference) -/
+def expected : List (String × K) := Lexer.kwTable
 
-/-- names that are functions only in front of `(` / `by` / `without` and identifiers elsewhere -/
-def expectedFunctions : List String := [
-  "absent_over_time", "avg", "avg_over_time", "bottomk", "bytes", "bytes_over_time", "bytes_rate", "count", "count_over_time",
-  "duration", "duration_seconds", "first_over_time", "ip", "label_replace", "last_over_time", "max", "max_over_time", "min",
-  "min_over_time", "quantile_over_time", "rate", "rate_counter", "sort", "sort_desc", "stddev", "stddev_over_time", "stdvar",
-  "stdvar_over_time", "sum", "sum_over_time", "topk", "vector"]
+/-- names that are functions only in front of `(` / `by` / `without` and identifiers elsewhere: the
+function class of the lexer model -/
+def expectedFunctions : List String := (Lexer.kwTable.filter (fun p => Lexer.isFunctionK p.2)).map (·.1)
 
 /-- **C05 (token table)**: the lexer maps every fixed spelling of the grammar to its own token —
 `>=` is `gte` and never `gt`, `5m`-style units aside (those are in the correspondence). -/
